@@ -15,7 +15,7 @@ def delivery_oracle(group, res, kind, prop):
     """one-piece run vs every other schedule of the same stream, on the implementation alone"""
     fails = []
     base = ParseResult(res[group.tag(0)])
-    fields = ["m", "t", "h", "b"] if kind == "req" else ["c", "p", "h", "b"]
+    fields = ["m", "t", "u", "h", "b"] if kind == "req" else ["c", "p", "h", "b"]
     stream = unhex(group.meta["stream"])
     for i in range(1, len(group.members)):
         r = ParseResult(res[group.tag(i)])
@@ -473,7 +473,8 @@ def measure_request(stream):
         if j < 0:
             return None
         if j == pos:
-            return {"line": e, "firsts": firsts, "conts": conts, "hdr_end": j + 2}
+            # the empty line that ends the block is measured by the header parser like any other line (2 bytes)
+            return {"line": e, "firsts": firsts + [2], "conts": conts, "hdr_end": j + 2}
         ln = j + 2 - pos
         if stream[pos:pos + 1] in (b" ", b"\t") and firsts:
             conts.append(ln)
@@ -512,7 +513,7 @@ class C08:
             s = line + CRLF + hb + body
             ms = measure_request(s)
             T = ms["hdr_end"] + (d if with_cl else 0)
-            maxfirst = max(ms["firsts"] or [2])
+            maxfirst = max(ms["firsts"])
             meta_base = {"stream": s.hex(), "line": ms["line"], "firsts": ms["firsts"], "conts": ms["conts"], "hdr_end": ms["hdr_end"],
                          "declared": d if with_cl else 0, "total": T, "supplied": len(s)}
             cfgs = []
@@ -699,7 +700,7 @@ class C09:
     def oracle(group, res):
         fails = []
         kind = group.meta["kind"]
-        fields = ["m", "t", "h", "b"] if kind == "req" else ["c", "p", "h", "b"]
+        fields = ["m", "t", "u", "h", "b"] if kind == "req" else ["c", "p", "h", "b"]
 
         def boundary(r):
             return r.total - (len(r.field_bytes("x")) if kind == "resp" else 0)
